@@ -220,6 +220,8 @@ def call(I, f, args, kwargs):
         return f(*nativize(args), **nativize(kwargs))
 
     # ---- symbolic arguments: modelled built-ins only
+    if isinstance(f, type) and issubclass(f, BaseException):
+        return f(*args, **kwargs)  # exception objects only store their arguments
     if f is types.SimpleNamespace:
         return f(*args, **kwargs)  # a plain attribute holder
     if f is builtins.sum:
@@ -353,8 +355,10 @@ def sym_attr(I, obj, name):
     if isinstance(obj, SBytes):
         return _sbytes_attr(I, obj, name)
     if isinstance(obj, (SBuf, SZeros)):
-        if name in ("hex", "decode"):
-            return _Method(lambda *a, **k: _text(I, "bytes." + name, obj), name)
+        if name == "hex":
+            return _Method(lambda *a, **k: _text(I, "bytes.hex", obj), name)
+        if name == "decode":
+            return _Method(lambda *a, **k: _decode(I, obj), name)
         raise Unsupported("attribute %s of a symbolic-length buffer" % name)
     if isinstance(obj, SInt):
         if name == "to_bytes":
@@ -377,7 +381,9 @@ def sym_attr(I, obj, name):
         if obj.tag.endswith("text"):
             if name in ("lower", "upper", "strip", "rstrip", "lstrip", "format", "join", "replace", "encode", "zfill", "ljust", "rjust", "title"):
                 return _Method(lambda *a, **k: _text(I, "str." + name, obj, *a), name)
-            if name in ("startswith", "endswith", "split"):
+            if name == "split":
+                return _Method(lambda *a, **k: SOpaque("split-text-list", obj, *a), name)
+            if name in ("startswith", "endswith"):
                 raise Unsupported("str.%s on text formatted from symbolic data" % name)
         return SOpaque("attr:%s.%s" % (obj.tag, name), obj)
     if isinstance(obj, SStr):
@@ -387,6 +393,15 @@ def sym_attr(I, obj, name):
             return _Method(lambda p, *a: SBool(z3.SuffixOf(z3.StringVal(p), obj.e)) if not a and isinstance(p, str) else _unsup("endswith args"), name)
         raise Unsupported("str.%s on symbolic string" % name)
     raise Unsupported("attribute %s of %s" % (name, type(obj).__name__))
+
+
+def _decode(I, obj):
+    """bytes.decode on symbolic contents: either the bytes are valid in the codec (uninterpreted text) or
+    UnicodeDecodeError is raised -- both outcomes are explored"""
+    ok = SBool(z3.Bool(V.fresh_name("decodable")))
+    if not I.truth(ok):
+        raise UnicodeDecodeError("utf-8", b"", 0, 1, "invalid byte (symbolic contents)")
+    return _text(I, "bytes.decode", obj)
 
 
 def _unsup(msg):
@@ -424,8 +439,10 @@ def _sbytes_attr(I, obj, name):
         return _Method(extend, name)
     if name == "copy":
         return _Method(lambda: SBytes(obj.cells, obj.mutable), name)
-    if name in ("hex", "decode"):
-        return _Method(lambda *a, **k: _text(I, "bytes." + name, obj), name)
+    if name == "hex":
+        return _Method(lambda *a, **k: _text(I, "bytes.hex", obj), name)
+    if name == "decode":
+        return _Method(lambda *a, **k: _decode(I, obj), name)
     if name == "join":
         def join(parts):
             cells = []
